@@ -155,57 +155,67 @@ pub fn compare_with_truth(res: &ResolvedRecord, t: &Truth) -> Result<(), (String
     }
 }
 
-/// Each referral followed for a question is strictly closer to the question
-/// name than the zone the previous server was asked as.
+/// Each referral followed for the question is strictly closer to the question
+/// name than the previous one.
 ///
-/// The session's own question is resolved in exactly one attempt (it stays on
-/// the resolver's question stack throughout, so that it cannot recur as a
-/// sub-question): the zones asked about it must get strictly deeper, a TCP
-/// retry at the same server excepted.  The address look-ups for nameserver
-/// hosts can be attempted several times within one resolution, and a later
-/// attempt legitimately starts higher up than the previous one ended (the
-/// cached NS set of the question's own name is invisible to sub-questions,
-/// because looking it up would repeat the question on the stack): for those an
-/// attempt ends with its first reply that is not a referral, and the rule
-/// holds within an attempt.
+/// Judged on the session's own question, which is resolved in exactly one
+/// attempt (it stays on the resolver's question stack throughout, so it cannot
+/// recur as a sub-question): whenever an exchange about it is followed by
+/// another one (a TCP retry after a truncated reply excepted), the reply in
+/// between must have been a referral - NS records owned by an ancestor of the
+/// question name - and deeper than the referral followed before.  Depth is
+/// that of the NS owner, not of the server: one server may serve a zone and
+/// its child, and a negative answer in the RFC 2308 "type 1" shape (SOA plus
+/// the zone's NS set) from such a server is legitimately followed as a
+/// referral to the child zone, at the same address.  The address look-ups for
+/// nameserver hosts can be attempted several times within one resolution, each
+/// attempt starting from whatever the cache holds (the cached NS set of the
+/// question's own name is invisible to them): they are only required to be
+/// put to servers of an enclosing zone.
 pub fn referrals_monotone(u: &Universe, log: &[Exchange], main: &WQ) -> Result<u32, (String, String)> {
-    use std::collections::BTreeMap;
     let main = WQ { name: main.name.lower(), qtype: main.qtype, qclass: main.qclass };
-    let mut last_depth: BTreeMap<WQ, (usize, IpAddr, bool)> = BTreeMap::new();
     let mut referrals = 0;
+    // (depth of the referral in the previous reply about the main question, was that reply truncated)
+    let mut prev: Option<(Option<usize>, bool, IpAddr, bool)> = None;
+    let mut last_followed: Option<usize> = None;
     for e in log {
         let Some(q) = question_of(e.request.as_ref()) else { continue };
         let q = WQ { name: q.name.lower(), qtype: q.qtype, qclass: q.qclass };
-        let is_main = q == main;
         let served = u.zones_at(e.dest.ip());
-        let depth = served
-            .iter()
-            .filter(|i| q.name.is_at_or_below(&u.zones[**i].apex))
-            .map(|i| u.zones[*i].apex.depth())
-            .max();
-        let Some(depth) = depth else {
+        if !served.iter().any(|i| q.name.is_at_or_below(&u.zones[*i].apex)) {
             return Err(("asked-unrelated-server".into(), format!("{} asked about {} which it does not serve", e.dest, q.name)));
-        };
-        if let Some((prev, prev_ip, prev_tcp)) = last_depth.get(&q) {
-            let tcp_retry = e.tcp && !*prev_tcp && *prev_ip == e.dest.ip();
-            if depth < *prev || (is_main && depth == *prev && !tcp_retry) {
-                return Err((
-                    "referral-not-closer".into(),
-                    format!("question {} {}: asked a server at depth {depth} after one at depth {prev}", q.name, q.qtype),
-                ));
-            }
         }
-        let is_referral = e.reply.as_ref().map_or(false, |r| r.answers.is_empty() && r.authority.iter().any(|rr| rr.rtype == T_NS));
-        let truncated = e.reply.as_ref().map_or(false, |r| r.tc);
-        if is_referral {
+        let referral_depth = e.reply.as_ref().and_then(|r| {
+            r.authority.iter().chain(r.answers.iter()).filter(|rr| rr.rtype == T_NS && q.name.is_at_or_below(&rr.name.lower()) && !(rr.name.lower() == q.name && q.qtype == T_NS && !r.answers.is_empty())).map(|rr| rr.name.depth()).max()
+        });
+        if e.reply.as_ref().map_or(false, |r| r.answers.is_empty() && r.authority.iter().any(|rr| rr.rtype == T_NS)) {
             referrals += 1;
         }
-        if is_main || is_referral || truncated || e.reply.is_none() {
-            last_depth.insert(q, (depth, e.dest.ip(), e.tcp));
-        } else {
-            // a sub-question's attempt ended with this reply
-            last_depth.remove(&q);
+        if q != main {
+            continue;
         }
+        if let Some((pdepth, ptc, pip, ptcp)) = prev {
+            let tcp_retry = ptc && e.tcp && !ptcp && pip == e.dest.ip();
+            if !tcp_retry {
+                // the previous reply was followed as a referral
+                match pdepth {
+                    None => {
+                        return Err(("referral-not-closer".into(), format!("question {} {} was asked again although the previous reply was no referral", q.name, q.qtype)));
+                    }
+                    Some(d) => {
+                        if last_followed.map_or(false, |l| d <= l) {
+                            return Err((
+                                "referral-not-closer".into(),
+                                format!("question {} {}: followed a referral to depth {d} after one to depth {}", q.name, q.qtype, last_followed.unwrap()),
+                            ));
+                        }
+                        last_followed = Some(d);
+                    }
+                }
+            }
+        }
+        let tc = e.reply.as_ref().map_or(false, |r| r.tc);
+        prev = Some((referral_depth, tc, e.dest.ip(), e.tcp));
     }
     Ok(referrals)
 }
